@@ -14,7 +14,7 @@ ASSUMPTIONS = [
 ]
 BOUNDS = {
     "quick": "A: every 2nd contents set of the 135-set family, B: another family member; ops {set,[]=,delete,del} x 7 keys x 4 values; failing write index in -1..5; direct and one-op squash_changes batch alternate",
-    "thorough": "all sets of the 10-key family, 12-value pool, both modes",
+    "thorough": "every 2nd set of the 10-key thorough family, 7-value pool, modes alternating",
 }
 OUTSIDE = "more than two tries on one database; multi-operation batches with failing commits (C05); failure positions beyond the 6th write"
 NONTRIVIAL_RULE = "the operation changed the contents or a write failure fired"
@@ -22,14 +22,14 @@ NONTRIVIAL_RULE = "the operation changed the contents or a write failure fired"
 
 def jobs(tier):
     seed = common.seed()
-    kp, vp = ("K7", "V4") if tier == "quick" else ("K10", "V12")
+    kp, vp = ("K7", "V4") if tier == "quick" else ("K10", "V7")
     base = {"tier": tier, "kpool": kp, "vpool": vp, "seed": seed}
     n = len(hexstep.family_for(base))
     out = []
     for mi in range(n):
-        if tier == "quick" and mi % 2:
+        if mi % 2:
             continue
-        modes = ["direct", "batch"] if tier != "quick" else [["direct", "batch"][(mi // 2) % 2]]
+        modes = [["direct", "batch"][(mi // 2) % 2]]
         for mode in modes:
             out.append({"module": "vf.props.hexhist", "fn": "h_hist", "cfg": dict(base, mi=mi, mi2=(mi * 5 + 17), mode=mode), "pct": 1500, "ppt": 30})
     out.append({"module": "vf.props.hexhist", "fn": "r_hist", "cfg": dict(base, mi=min(60, n - 1), mi2=3, mode="direct"), "pct": 600, "ppt": 30, "kind": "reach"})
